@@ -579,8 +579,10 @@ Section WithHash.
   Lemma bstep_inv b o : Inv b -> accepted H coll b o = true ->
     (exists b', bstep H coll b o = Ok b' /\ Inv b') \/ (exists c, bstep H coll b o = Err c /\ benign c).
   Proof.
-    intros I Hacc. destruct o as [mem l roll|inputs lens roll|inputs lens roll|input|log roll]; cbn [bstep].
+    intros I Hacc. destruct o as [mem l roll|ents roll|inputs lens roll|inputs lens roll|input|log roll]; cbn [bstep].
     - destruct (flush_inv b mem l roll I Hacc) as [?|E]; [now left|right; exists CDuplicate; unfold benign; tauto].
+    - cbn [accepted] in Hacc. destruct (outs_ok_spec _ _ _ Hacc) as (Hf & _ & _). inversion Hf as [|? ? [_ Hag] _]; subst.
+      destruct (ingest_inv b (build_file H ents) None roll I (build_file_ok ents) Hag) as [?|E]; [now left|right; exists CDuplicate; unfold benign; tauto].
     - destruct (compact_inv b inputs lens roll I Hacc) as [?|E]; [now left|right; exists CNotFound; unfold benign; tauto].
     - destruct (gc_inv b inputs lens roll I Hacc) as [?|[E|E]]; [now left|right; exists CNotFound; unfold benign; tauto|right; exists CGcLogic; unfold benign; tauto].
     - destruct (move_inv b input I) as [?|E]; [now left|right; exists CNotFound; unfold benign; tauto].
